@@ -31,3 +31,52 @@ PROPS["C07"] = {
         "inputs are deep-copied per arrangement (the production code hands ownership over)",
     ],
 }
+
+PROPS["C02"] = {
+    "pkg": "c02", "level": "exploration",
+    "jobs": {
+        "quick": [
+            {"name": "corpus", "kind": "plain", "run": "^TestSeedCorpus$"},
+            {"name": "grammar", "run": "^TestGrammarLines$", "checks": 24000, "shards": 6},
+            {"name": "nearmiss", "run": "^TestNearMisses$", "checks": 24000, "shards": 6},
+            {"name": "arbitrary", "run": "^TestArbitraryStrings$", "checks": 12000, "shards": 3},
+        ],
+        "thorough": [
+            {"name": "corpus", "kind": "plain", "run": "^TestSeedCorpus$"},
+            {"name": "grammar", "run": "^TestGrammarLines$", "checks": 3200000, "shards": 6, "timeout": 1700},
+            {"name": "nearmiss", "run": "^TestNearMisses$", "checks": 3200000, "shards": 6, "timeout": 1700},
+            {"name": "arbitrary", "run": "^TestArbitraryStrings$", "checks": 1600000, "shards": 4, "timeout": 1700},
+            {"name": "fuzz", "kind": "fuzz", "fuzz": "FuzzLexImplications", "time": "240s", "timeout": 600},
+        ],
+    },
+    "assumptions": [
+        "strconv.ParseFloat (error == nil) is the definition of a parsable number",
+        "documented grammar is silent, hence excluded: names starting with '_' other than '_e{', empty attribute fields (the lexer then treats the following field as unknown), event attribute values containing '|', event header numbers of more than 19 digits",
+    ],
+}
+
+PROPS["C03"] = {
+    "pkg": "c03", "level": "exploration", "crash_is_violation": True,
+    "jobs": {
+        "quick": [
+            {"name": "seeds", "kind": "plain", "run": "^(TestDatagramSeeds|TestHeaderBoundaryPairs)$"},
+            {"name": "lexer", "run": "^TestLexerNeverPanics$", "checks": 16000, "shards": 4},
+            {"name": "parser", "run": "^TestParserAccounting$", "checks": 4000, "shards": 6},
+            {"name": "http", "run": "^TestHTTPIngestion$", "checks": 3000, "shards": 5},
+        ],
+        "thorough": [
+            {"name": "seeds", "kind": "plain", "run": "^(TestDatagramSeeds|TestHeaderBoundaryPairs)$"},
+            {"name": "lexer", "run": "^TestLexerNeverPanics$", "checks": 1600000, "shards": 5, "timeout": 1700},
+            {"name": "parser", "run": "^TestParserAccounting$", "checks": 400000, "shards": 6, "timeout": 1700},
+            {"name": "http", "run": "^TestHTTPIngestion$", "checks": 200000, "shards": 5, "timeout": 1700},
+            {"name": "fuzz-datagram", "kind": "fuzz", "fuzz": "FuzzDatagram", "time": "180s", "timeout": 500},
+            {"name": "fuzz-http-raw", "kind": "fuzz", "fuzz": "FuzzHTTPRaw", "time": "120s", "timeout": 500},
+            {"name": "fuzz-http-event", "kind": "fuzz", "fuzz": "FuzzHTTPEvent", "time": "120s", "timeout": 500},
+        ],
+    },
+    "assumptions": [
+        "'each line is either parsed or counted as a bad line' is read as: parser.metrics_received + parser.events_received + parser.bad_lines_seen increases by the number of newline-separated segments (an empty segment in the middle counts as a bad line; the empty remainder after a trailing newline is not a segment)",
+        "a wedge is reported only after 60 s (datagram) / 120 s (HTTP) without completion of an operation that normally takes microseconds",
+        "the UDP socket read loop (receiver.go) is exercised end to end only by C20; here datagrams are injected at the parser's input channel",
+    ],
+}
